@@ -133,9 +133,9 @@ func RandValue(r *rand.Rand, in model.Input, addrs [][]byte) model.AV {
 		el := in
 		el.Type = t[:i]
 		n := 1 + r.IntN(3)
-		if r.IntN(12) == 0 {
+		if r.IntN(25) == 0 {
 			// now and then a long array (more rows per log than any small constant)
-			n = 9 + r.IntN(40)
+			n = 9 + r.IntN(14)
 		}
 		if inner != "" {
 			fmt.Sscanf(inner, "%d", &n)
